@@ -219,7 +219,8 @@ def units(tier):
 
     # ------------------------------------------------------------ device types against ANY answer stream (loop rule):
     # termination by a variant and "what is returned is strictly ascending" for streams of any length
-    unit("device-types-any-stream", r_any_stream, loops={(QDT, 0): LoopSpec("next-type", any_inv, any_havoc, variant=any_variant, roles=ANY_ROLES)})
+    unit("device-types-any-stream", r_any_stream, loops={(QDT, 0): LoopSpec("next-type", any_inv, any_havoc, variant=any_variant, roles=ANY_ROLES,
+                                                                 anchor=("QueryNextDeviceType",))})
 
     # ------------------------------------------------------------ groups
     for dname, dmk in short_dests() + other_dests():
